@@ -67,6 +67,11 @@ func wkt(buf *bytes.Buffer, geom orb.Geometry) {
 		}
 		buf.WriteByte(')')
 	case orb.Ring:
+		if len(g) == 0 {
+			buf.Write([]byte(`POLYGON EMPTY`))
+			return
+		}
+
 		wkt(buf, orb.Polygon{g})
 	case orb.Polygon:
 		if len(g) == 0 {
